@@ -150,13 +150,14 @@ func init() {
 		accessorLabels[strings.ReplaceAll(k, "$", "")] = true
 	}
 	sort.Strings(accNames)
+	accessorLabels["thisclosure"] = true // its value is the request's own X-T header, read through $this
 }
 
 func gen(r *verifsim.Rng, tier string) (any, hx.Sched) {
 	w := &W{}
 	nh := 1 + r.Intn(3)
 	kinds := []string{"read2", "read2", "read2", "loop", "arr", "obj", "depth", "closure", "helper",
-		"helperg", "objg", "closureg", "trycatch", "strbuild", "sortcb", "nested", "builtins", "hot"}
+		"helperg", "objg", "closureg", "trycatch", "strbuild", "sortcb", "nested", "builtins", "hot", "thisclosure"}
 	if r.Intn(12) == 0 {
 		kinds = append(kinds, "bigbody", "bigbody", "bigbody")
 	}
@@ -368,6 +369,14 @@ class Acc {
   public function addg($n, $who) { $t = $n; $w = $who; __gate(); $this->v = $this->v + $t; $this->log[] = $w; return $this; }
   public function down($n) { if ($n <= 0) { __gate(); return 0; } return 1 + $this->down($n - 1); }
 }
+class Holder {
+  public $t;
+  public function __construct($t) { $this->t = $t; }
+  public function viaClosure() { $f = function() { return $this->t; }; return $f(); }
+  public function viaClosureG() { $f = function($s) { $mine = $this->t; __gate(); return $mine . $s; }; return $f("~"); }
+  public function viaMap() { return implode(",", array_map(function($x) { return $this->t . $x; }, ["a", "b"])); }
+  public function viaNested() { $f = function() { $g = function() { return $this->t; }; return $g(); }; return $f(); }
+}
 function helper($a, $b) { return $a . "-" . $b; }
 function helperg($a, $b) { $x = $a; $y = $b; __gate(); $z = $x . "+" . $y; __gate(); return $z; }
 function outerfn($a, $n) { if ($n <= 0) { return innerfn($a); } return outerfn($a . ".", $n - 1); }
@@ -428,6 +437,9 @@ $server = new Server('127.0.0.1', 0);
 				fmt.Fprintf(b, "  $o2 = new Acc();\n  $out .= \"%s=\" . $o2->down(%d) . \";\";\n", lab, bl.N)
 			case "closure":
 				fmt.Fprintf(b, "  $t0 = $req->header(\"X-T\"); $f = function($z) use ($t0, $k) { return $t0 . \":\" . ($z + $k); };%s\n  $out .= \"%s=\" . $f(10) . \";\";\n", gate, lab)
+			case "thisclosure":
+				// an object of this request whose methods read $this inside closures WITHOUT a use clause
+				fmt.Fprintf(b, "  $hold = new Holder($req->header(\"X-T\"));%s\n  $out .= \"%s=\" . $hold->viaClosure() . \"|\" . $hold->viaClosureG() . \"|\" . $hold->viaMap() . \"|\" . $hold->viaNested() . \";\";\n", gate, lab)
 			case "helper":
 				fmt.Fprintf(b, "  $t1 = $req->header(\"X-T\");%s\n  $out .= \"%s=\" . helper($t1, $k) . \";\";\n", gate, lab)
 			case "helperg":
